@@ -12,6 +12,18 @@ TRUST = ("Trusted: govc itself (go/ssa semantics, memory model, contract parser)
          "slice/string/map lengths < 2^48, sequential semantics. Integers are mathematical with Go wrap-around written out.")
 
 CLAIMED = {
+ "C03": dict(
+   text=("The one-to-one mirroring is implemented by closures over reflect that are generated at package init: no contract in this memory model can say "
+         "that a substatement lands in the field of its keyword, so that part is a bounded stand-in (labelled) and nothing about it is counted as proved: "
+         "every module and submodule the schema generators produce (containers, lists, leaves, choices, rpcs, actions, notifications, groupings, uses, "
+         "typedefs, augments, deviations, identities, revisions, features, extension statements at every level) is built and every node of the AST is "
+         "walked against the statement it was built from -- each substatement exactly once, in the field of its keyword, in source order among its "
+         "keyword, prefixed ones in the extension list, argument as name, link to the enclosing node, reference back to the statement, and nothing in "
+         "any field that no substatement produced; 25 single-fault texts (unknown keyword in context, second single-valued substatement, absent "
+         "mandatory substatement, top-level non-module) must be rejected. Deductive proof only of the two rejection clauses that are plain code: "
+         "Modules.Parse hands a top-level statement to the builder only if its keyword is module or submodule, Modules.add accepts only nodes of kind "
+         "module or submodule (and only *Module reports those kinds: all 47 Node implementations checked). Assumed: the builder returns a node or an error."),
+   ref="8 (C03)"),
  "C02": dict(
    text=("Deductive proof of the token-class clauses that are contracts on real functions: the lexer cursor (next, backup, peek, acceptRun: under C16); an "
          "unquoted token ends at, and only at, white space, a quote, ';', '{', '}' or the end of input, every other character belongs to it "
@@ -186,7 +198,6 @@ CLAIMED = {
 }
 
 NOT_REACHED = {
- "C03": "not applicable with the contracts within reach: the statement-to-node mirroring is implemented by closures over reflect generated at init; reflection results are opaque to the memory model, so no contract can express that each substatement lands in its field. Only Modules.add's 'modules and submodules only' clause is proved (counted under C13). DESIGN.md section 13.",
  "C18": "not applicable with the contracts within reach: two thirds of the statement relate whole runs (processing twice vs once, incremental vs batch loading), which contract-based verification of single calls cannot state; the single-call part (a failed load leaves no trace) lives on Modules.Parse, whose body is an unknown call into the reflection builder, so no frame can be proved across it. One defect of this property (a type resolved with errors came out clean on the second run) was found, repaired (fix 5ab493d) and is guarded by the two-run comparison of the C09 stand-in. DESIGN.md section 13.",
 }
 
